@@ -39,7 +39,22 @@ class Gen:
         return f'Gen{self.items}'
 
 
-DATA_VALUES = ((), (0,), (127,), (128,), (-1,), [1, 2], b'\x01',
+class Sx:
+    """A value of the library's own sysex-data tuple subclass (reachable as
+    type(msg.data)): being of that type is no proof of valid contents."""
+
+    def __init__(self, items):
+        self.items = tuple(items)
+
+    def __repr__(self):
+        return f'Sx{self.items}'
+
+
+SX_CLASS = []
+
+
+DATA_VALUES = (Sx((1, 2)), Sx((1, 300)), Sx((1.5,)), Sx(('a',)), Sx((None,)),
+               Sx((-1,)),(), (0,), (127,), (128,), (-1,), [1, 2], b'\x01',
                bytearray(b'\x7f'), range(3), Gen((5, 6)), Gen((5, 200)), 'ab',
                5, None, (1.0,), ('1',), [None], 3, 0, True, [[1]], b'\x80',
                (2 ** 64,), (0, 1, 2, 3, 4, 5, 6, 7, 127))
@@ -55,7 +70,11 @@ def values_for(name):
 
 
 def realise(v):
-    return v.make() if isinstance(v, Gen) else v
+    if isinstance(v, Gen):
+        return v.make()
+    if isinstance(v, Sx):
+        return SX_CLASS[0](v.items)
+    return v
 
 
 def normalise(name, v):
@@ -63,7 +82,7 @@ def normalise(name, v):
     if name == 'time':
         return (isinstance(v, Real), v)
     if name == 'data':
-        if isinstance(v, Gen):
+        if isinstance(v, (Gen, Sx)):
             v = v.items
         if isinstance(v, (str, bytes, bytearray)) and isinstance(v, str):
             return (False, None)
@@ -101,11 +120,15 @@ def same(a, b):
 
 
 def vkey(v):
+    if isinstance(v, Sx):
+        return 'SysexData'
     return type(v).__name__ if not isinstance(v, Gen) else 'generator'
 
 
 def make_search(mido, type_, acc):
     Message = mido.Message
+    if not SX_CLASS:
+        SX_CLASS.append(type(Message('sysex').data))
     own, foreign = names_for(type_)
     set_names = own + ['type', foreign, 'nosuch', 'is_meta']
 
@@ -396,7 +419,7 @@ def check_case(case):
         return out
     acc = Acc()
     srch = make_search(mido, case['type'], acc)
-    env = {'Gen': Gen, 'inf': float('inf'), 'nan': float('nan')}
+    env = {'Gen': Gen, 'Sx': Sx, 'inf': float('inf'), 'nan': float('nan')}
     hist = tuple(eval(o, env) for o in case['ops'])
     s = srch.build(hist[:-1])
     obs = srch.apply(s, hist[-1])
